@@ -195,6 +195,12 @@ def run(ctx):
                         if alg is not None and A.names_loaded(alg) & tgt and c0.args and "spec" in A.names_loaded(c0.args[0]) and _is_neq(n.test):
                             cmp_ok = True
         returns_early = [n for n in ast.walk(verify.node) if isinstance(n, ast.Return) and n.value is not None]
+        gv = CFG.build(verify.node.body)
+        through, wit = gv.all_paths_pass(lambda nd: nd.stmt is lp)
+        if not through:
+            ok = False
+            ctx.violated(r4, verify, "early exit", "verify can return without comparing any digest (a path to the normal return bypasses the comparison loop): a workspace is accepted unverified, e.g. because it was verified before it was modified",
+                         expected="every normal return passes the loop over self.digests", found=" > ".join(gv.describe(wit)), node=verify.node)
         if ok and cmp_ok and not returns_early:
             ctx.holds(r4, f"{PS}::PatchSet.verify", "every (algorithm, digest) pair compared; exits: raise or exhaustion")
         else:
